@@ -402,3 +402,107 @@ contract(
         # ... additively, as a function of the returned point
         f"forall(i, 0, len(x), log_j[i] == old(log_j)[i] + ({ALOG}))"],
 )
+
+
+# ======================================================================
+# layer 4: the constructor of RescaleToBounds -- which options combine.
+# 'Where a prior in the reparameterised space is offered ...': the prime
+# prior (a uniform box) is only right when nothing non-affine follows the
+# rescaling, so a post-rescaling must switch it off; log / logit need the
+# unit interval and fixed bounds.  Two parameters, default rescale bounds,
+# no inversion, no offset; the base-class constructor (parameter / bounds
+# normalisation) and set_bounds are not looked into.
+# ======================================================================
+shape("RescaleInit", {
+    "parameters": "PyConst(['a', 'b'])",
+    "prime_parameters": "PyConst(['a_prime', 'b_prime'])",
+    "prior_bounds": "Dict(a:PyList(Real,2),b:PyList(Real,2))",
+    "name": "Any",
+}, cls="RescaleToBounds")
+contract(RR, "RescaleToBounds.configure_pre_rescaling", props=["C07"],
+         inline=True, verify=False)
+contract(RR, "RescaleToBounds.configure_post_rescaling", props=["C07"],
+         inline=True, verify=False)
+_RI_P = {"parameters": ("const", ["a", "b"]), "prior_bounds": "Any",
+         "prior": "Opt(Str)", "rescale_bounds": "None",
+         "boundary_inversion": "None", "detect_edges": ("const", False),
+         "inversion_type": "Any", "detect_edges_kwargs": "None",
+         "offset": ("const", False), "update_bounds": "Bool",
+         "pre_rescaling": "None"}
+_RI_OPQ = ["__init__", "set_bounds", "configure_edge_detection"]
+contract(
+    RR, "RescaleToBounds.__init__", props=["C07"], self_shape="RescaleInit",
+    params=dict(_RI_P, post_rescaling="None"),
+    opaque_callees=_RI_OPQ,
+    replay={"module": "replay.custom", "func": "rescale_init"},
+    ensures=[
+        "self.has_prime_prior == (prior is not None and prior == 'uniform')",
+        "not self.has_post_rescaling and not self.has_pre_rescaling",
+        "self.rescale_bounds['a'][0] == -1 and "
+        "self.rescale_bounds['a'][1] == 1 and "
+        "self.rescale_bounds['b'][0] == -1 and "
+        "self.rescale_bounds['b'][1] == 1",
+        "self._update == update_bounds",
+        "self.boundary_inversion == False",
+    ],
+)
+contract(
+    RR, "RescaleToBounds.__init__", variant_name="logit", props=["C07"],
+    self_shape="RescaleInit",
+    params=dict(_RI_P, post_rescaling=("const", "logit")),
+    opaque_callees=_RI_OPQ,
+    ident_name="RescaleToBounds.__init__#logit",
+    replay={"module": "replay.custom", "func": "rescale_init"},
+    # log / logit cannot be combined with bounds that move
+    raises={"RuntimeError": "update_bounds"},
+    ensures=[
+        # no prime prior is offered once a post-rescaling is configured,
+        # whatever `prior` says
+        "not self.has_prime_prior",
+        "self.has_post_rescaling and not self.has_pre_rescaling",
+        "self.rescale_bounds['a'][0] == 0 and "
+        "self.rescale_bounds['a'][1] == 1 and "
+        "self.rescale_bounds['b'][0] == 0 and "
+        "self.rescale_bounds['b'][1] == 1",
+        "not self._update",
+    ],
+)
+
+
+# ---- NullReparameterisation: the identity on its parameters -----------------
+RN = "nessai/reparameterisations/null.py"
+shape("NullRP", {"parameters": "PyConst(['a', 'b'])",
+                 "prime_parameters": "PyConst(['a', 'b'])"},
+      cls="NullReparameterisation")
+XN = "Struct(a:Real,b:Real,c:Real,logP:Real,logL:Real)"
+contract(
+    RN, "NullReparameterisation.reparameterise", props=["C07"],
+    self_shape="NullRP", log_domain=True,
+    params={"x": XN, "x_prime": XN, "log_j": "Seq(Real)", "**kwargs": {}},
+    requires=["len(x) == len(x_prime) and len(log_j) == len(x)"],
+    modifies=["x_prime"], returns="Any",
+    ensures=["len(x_prime) == old(len(x_prime))",
+             "forall(i, 0, len(x), x_prime['a'][i] == x['a'][i] and "
+             "x_prime['b'][i] == x['b'][i])",
+             # every other field (another reparameterisation's parameter,
+             # the non-sampling fields) is untouched; log_j unchanged: the
+             # Jacobian of the identity is 1
+             "forall(i, 0, len(x), x_prime['c'][i] == old(x_prime['c'])[i] "
+             "and x_prime['logL'][i] == old(x_prime['logL'])[i] and "
+             "x_prime['logP'][i] == old(x_prime['logP'])[i])",
+             "result[0] is x and result[1] is x_prime and result[2] is log_j"],
+)
+contract(
+    RN, "NullReparameterisation.inverse_reparameterise", props=["C07"],
+    self_shape="NullRP", log_domain=True,
+    params={"x": XN, "x_prime": XN, "log_j": "Seq(Real)", "**kwargs": {}},
+    requires=["len(x) == len(x_prime) and len(log_j) == len(x)"],
+    modifies=["x"], returns="Any",
+    ensures=["len(x) == old(len(x))",
+             "forall(i, 0, len(x), x['a'][i] == x_prime['a'][i] and "
+             "x['b'][i] == x_prime['b'][i])",
+             "forall(i, 0, len(x), x['c'][i] == old(x['c'])[i] "
+             "and x['logL'][i] == old(x['logL'])[i] and "
+             "x['logP'][i] == old(x['logP'])[i])",
+             "result[0] is x and result[1] is x_prime and result[2] is log_j"],
+)
